@@ -668,26 +668,37 @@ def install(R):
     """register the tensornetwork / numpy models on a pyvc Registry"""
     from .engine import model
 
+    def byname(args, kw, *names):
+        """the library call's arguments by position or keyword (numpy / tensornetwork parameter names)"""
+        out = list(args)
+        for n in names[len(out):]:
+            if n not in kw:
+                raise Unsupported('library model: argument %s missing' % n)
+            out.append(kw[n])
+        return out
+
     @model
     def m_node(ip, args, kw):
-        return TNode(args[0])
+        return TNode(byname(args, kw, 'tensor')[0])
 
     @model
     def m_copy(ip, args, kw):
-        return tn_copy(list(args[0]))
+        return tn_copy(list(byname(args, kw, 'nodes')[0]))
 
     @model
     def m_replicate(ip, args, kw):
-        nd, _ = tn_copy(list(args[0]))
-        return [nd[n] for n in args[0]]
+        nodes = list(byname(args, kw, 'nodes')[0])
+        nd, _ = tn_copy(nodes)
+        return [nd[n] for n in nodes]
 
     @model
     def m_dot(ip, args, kw):
-        return tdot(args[0], args[1])
+        a, b = byname(args, kw, 'a', 'b')[:2]
+        return tdot(a, b)
 
     @model
     def m_swapaxes(ip, args, kw):
-        a, i, j = args
+        a, i, j = byname(args, kw, 'a', 'axis1', 'axis2')
         perm = list(range(a.rank))
         i, j = i % a.rank, j % a.rank
         perm[i], perm[j] = perm[j], perm[i]
@@ -695,7 +706,7 @@ def install(R):
 
     @model
     def m_moveaxis(ip, args, kw):
-        a, src, dst = args
+        a, src, dst = byname(args, kw, 'a', 'source', 'destination')
         src, dst = src % a.rank, dst % a.rank
         perm = [k for k in range(a.rank) if k != src]
         perm.insert(dst, src)
@@ -789,7 +800,7 @@ def install(R):
 
     @model
     def m_contract_edge(ip, args, kw):
-        e = args[0]
+        e = args[0] if args else kw.get('edge')
         if not isinstance(e, TEdge) or e.is_dangling() or not e.ends:
             raise PyRaise(ExcVal('ValueError', ('contract of a dangling or disabled edge',)))
         (n1, _), (n2, _) = e.ends
@@ -800,7 +811,7 @@ def install(R):
 
     @model
     def m_greedy(ip, args, kw):
-        nodes = list(args[0])
+        nodes = list(args[0] if args else kw['nodes'])
         if not nodes:
             raise Unsupported('greedy contraction of nothing')
         # contracts ALL the given nodes (the order is the contractor's business; the result is the same tensor)
